@@ -132,6 +132,7 @@ inductive Out
   | subscribed (inst : Nat) (k : SubKey) (a : Addr)
   | unsubscribed (inst : Nat) (k : SubKey) (a : Addr)
   | raised (e : Err)
+  | queued (dest : Dest) (e : SDEntry)      -- ghost: a `queue_send` request (observed by wrapping the method)
 deriving Repr, Inhabited
 
 structure Collector where
@@ -222,6 +223,7 @@ def appendCollector (s : Stack) (cid : Nat) (e : SDEntry) : Stack :=
 
 /-- `ServiceAnnouncer.queue_send(entry, remote)` -/
 def queueSend (s : Stack) (e : SDEntry) (remote : Dest) : Stack :=
+  let s := s.emit (.queued remote e)
   if s.tm.sendCollectionTimeout = 0 then s.sendSd [e] remote else
   match s.latestCollector remote with
   | some c =>
@@ -288,7 +290,7 @@ def sendOffer (s : Stack) (i : Nat) (remote : Dest) (stop : Bool) : Stack :=
   match s.getInst i with
   | none => s
   | some x =>
-    if !stop && x.task.isNone then s     -- nothing follows a StopOffer
+    if !stop && (x.task.isNone || (remote.isSome && !x.canAnswer)) then s   -- nothing follows a StopOffer; no answers in the initial wait phase
     else s.queueSend (x.service.createOfferEntry (if stop then 0 else s.tm.announceTtl)) remote
 
 def pow2 (i : Nat) : Nat := 2 ^ i
